@@ -875,12 +875,13 @@ func exec(planJSON []byte, run *core.Run) {
 		run.Probe("expected-values-computed-after-the-scheduled-run")
 	}
 	// the tasks of the cold / own families run honest, self-contained protocols: a failure
-	// marker ("!!…") is a failure of the library whoever reports it — the scheduled task, or the
+	// marker ("!!FAILED: …") is a failure of the library whoever reports it — the scheduled task, or the
 	// sequential reference of a LATER run in a process whose package-level state was left wrong
 	for t := range p.Tasks {
 		for i := range p.Tasks[t] {
 			for _, o := range [][]byte{at(out, t, i), at(ref, t, i)} {
-				if bytes.HasPrefix(o, []byte("!!")) {
+				// (the marker is long: outputs of other kinds are digests and keys, i.e. random bytes)
+				if (f.name == "cold" || f.name == "own") && bytes.HasPrefix(o, []byte("!!FAILED: ")) {
 					run.Violate(comp+"."+p.Tasks[t][i].K, "honest-self-contained-call-fails", "task %d op %d (%s) reports %q (schedule %v)", t, i, p.Tasks[t][i].K, o, sw)
 					return
 				}
